@@ -20,6 +20,9 @@ RULE = (
     "non-trivial = old != new and old accepts at least one call shape; distinct = distinct (old,new) pair"
 )
 ASSUMPTIONS = [
+    "default-text phase (complete, 4 templates x 25 x 25): two default texts denote the same default iff CPython evaluates both literals "
+    "to values with the same repr (so 1, True and 1.0 are three different defaults, 1 and 0x1 the same one); non-literal defaults are "
+    "compared by syntax tree. Changed => some breakage naming the parameter; same => no breakage at all",
     "inherited-method rendering (sampled): the function is a method of a private class _B reachable only as S.f of a public subclass; "
     "only 'call-breaking => some breakage on it' and 'identical => silent' are judged there",
     "CPython 3.12 call binding is the reference for 'a call binds'",
@@ -249,6 +252,9 @@ def griffe_breakages(old_mod, new_mod):
 
 # ----------------------------------------------------------------------------- entry points
 def check_case(case) -> list[Fail]:
+    if case.get("render") == "default-text":
+        br = griffe_breakages(griffe_module(case["old"]), griffe_module(case["new"]))
+        return judge_default_text(case["old"], case["new"], case["old_default"], case["new_default"], br)
     old, new = parse_sig(case["old"]), parse_sig(case["new"])
     shapes = shapes_for(case)
     om, nm = accept_mask(case["old"], shapes), accept_mask(case["new"], shapes)
@@ -403,6 +409,57 @@ def _enumerate_methods(ctx, sigs, shapes, select) -> None:
                 ctx.fail(f, case)  # (the known multiple-values finding applies to methods exactly as to functions: same predicate)
 
 
+# ----------------------------------------------------------------------------- default values as written (texts, not codes)
+DEFAULT_TEXTS = (
+    "None", "0", "1", "2", "-1", "True", "False", "0.0", "1.0", "1e0", "0x1", "1j", "''", "'x'", '"x"', "b'x'", "()", "(1,)", "[]", "{}",
+    "...", "x", "y", "x.y", "x()",
+)
+DEFAULT_TEMPLATES = ("a, p={D}", "p={D}, /", "*, p={D}", "a, /, p={D}, *v, **k")
+
+
+def _default_key(text: str):
+    """What "the default value" is for the oracle: the value CPython evaluates the literal to, together with its type
+    (1, True and 1.0 are three different defaults although they compare equal); for non-literals, the syntax tree."""
+    import ast
+
+    node = ast.parse(text, mode="eval").body
+    try:
+        return ("value", repr(ast.literal_eval(node)))
+    except (ValueError, TypeError, SyntaxError):
+        return ("tree", ast.dump(node))
+
+
+def judge_default_text(old_text: str, new_text: str, od: str, nd: str, breakages) -> list[Fail]:
+    """Clause 2 (a changed default is always reported) and clauses 3/4 (same default: silence) on default *texts*."""
+    changed = _default_key(od) != _default_key(nd)
+    if changed and not [b for b in breakages if b[1] == "m.f" and "p" in (b[2], b[3])]:
+        return [Fail("default-reported", "unreported[text]", f"def f({old_text}) -> def f({new_text}): default of p changed {od} -> {nd}, nothing reported for it (reported: {breakages})")]
+    if not changed and breakages:
+        return [Fail("justified", "reported[same-default-value]", f"def f({old_text}) -> def f({new_text}): {od} and {nd} are the same default value, reported {breakages}")]
+    return []
+
+
+def _enumerate_default_texts(ctx) -> None:
+    """Complete: every ordered pair of default texts in every template (4 x 25 x 25 pairs)."""
+    k = 0
+    for tpl in DEFAULT_TEMPLATES:
+        texts = [tpl.format(D=d) for d in DEFAULT_TEXTS]
+        mods = None
+        for i, od in enumerate(DEFAULT_TEXTS):
+            k += 1
+            if k % ctx.nshards != ctx.shard:
+                continue
+            if mods is None:
+                mods = [griffe_module(t) for t in texts]
+            for j, nd in enumerate(DEFAULT_TEXTS):
+                br = griffe_breakages(mods[i], mods[j])
+                same = _default_key(od) == _default_key(nd)
+                cls = "identical" if i == j else ("same-value-other-text" if same else "changed")
+                ctx.case(1 if i != j else None, ("default-text:" + cls,), {"space": "default-text", "old": texts[i], "new": texts[j]} if (i * 25 + j) % 211 == 3 else None, enumerated=True)
+                for f in judge_default_text(texts[i], texts[j], od, nd, br):
+                    ctx.fail(f, {"space": "default-text", "render": "default-text", "old": texts[i], "new": texts[j], "old_default": od, "new_default": nd})
+
+
 def run_shard(ctx) -> None:
     from vp.common.harness import derive_seed
 
@@ -415,6 +472,7 @@ def run_shard(ctx) -> None:
 
     salt_m = _ds(ctx.base_seed, 0, "c10m") % 1000003
     mod_m = 19 if ctx.quick else 5
+    _enumerate_default_texts(ctx)
     _enumerate_methods(ctx, sigs, CALL_SHAPES, lambda i, j: (i * 7919 + j * 104729 + salt_m) % mod_m == 0)
     _enumerate(ctx, sigs, CALL_SHAPES, "abc3", lambda i, j: True)
     ctx.res.extra["enum_complete"] = not ctx.res.budget_exhausted
